@@ -43,7 +43,29 @@ def run_translators():
     return problems
 
 
+COQ_DIRS = ["ASModel", "Seq", "Marker", "Props"]
+
+
+def coq_project():
+    """_CoqProject lists every .v under the development's directories (sorted), so adding a
+    file needs no edit of a shared list."""
+    lines = ["-Q %s %s" % (d, d) for d in COQ_DIRS if os.path.isdir(os.path.join(COQ, d))]
+    for d in COQ_DIRS:
+        for f in sorted(glob.glob(os.path.join(COQ, d, "*.v"))):
+            lines.append(os.path.relpath(f, COQ))
+    # generated files may not exist yet on a fresh checkout
+    for gen in ["ASModel/Orderings_gen.v", "Marker/Types_gen.v"]:
+        if gen not in lines and os.path.isdir(os.path.join(COQ, os.path.dirname(gen))) and \
+           os.path.exists(os.path.join(HERE, "gen_types.py" if "Types" in gen else "gen_orderings.py")):
+            lines.append(gen)
+    text = "\n".join(lines) + "\n"
+    cp = os.path.join(COQ, "_CoqProject")
+    if not os.path.exists(cp) or open(cp).read() != text:
+        open(cp, "w").write(text)
+
+
 def coq_makefile():
+    coq_project()
     mk = os.path.join(COQ, "Makefile")
     cp = os.path.join(COQ, "_CoqProject")
     if not os.path.exists(mk) or os.path.getmtime(mk) < os.path.getmtime(cp):
